@@ -679,9 +679,10 @@ class __Class(_pre.Pregex):
         range_pattern = \
             r"(?:\\(?:\[|\]|\^|\$|\-|\/|[a-z]|\\)|[^\[\]\^\$\-\/\\])" + \
             r"-(?:\\(?:\[|\]|\^|\$|\-|\/|[a-z]|\\)|[^\[\]\^\$\-\/\\])"
-        ranges = set(_re.findall(range_pattern, classes))
-        classes = _re.sub(pattern=range_pattern, repl="", string=classes)
-        return (ranges, set(_re.findall(r"\\?.", classes, flags=_re.DOTALL)))
+        # Scan from left to right, one class at a time, so that a range
+        # can never begin in the middle of an escaped character.
+        tokens = _re.findall(f"({range_pattern})|(\\\\?.)", classes, flags=_re.DOTALL)
+        return (set(rng for rng, _ in tokens if rng), set(c for _, c in tokens if c))
 
     
     @staticmethod
